@@ -86,6 +86,8 @@ def program_strategy(draw, max_ops=30, removal_heavy=False):
         (1, st.fixed_dictionaries({"op": st.just("copy_group"), "group": idx, "ws": st.sampled_from([0, 1])})),
         (1, st.fixed_dictionaries({"op": st.just("push"), "group": idx, "pg": idx, "name": st.sampled_from(["p1", "p2"]), "vals": vals})),
         (1, st.fixed_dictionaries({"op": st.just("group"), "name": st.sampled_from(["G0", "G0", "H"])})),
+        (2, st.fixed_dictionaries({"op": st.just("meta"), "data": idx, "k": st.integers(0, 9)})),
+        (2, st.fixed_dictionaries({"op": st.just("empty_pg"), "hole": idx})),
         (2, st.just({"op": "plain"})),
         (2, st.fixed_dictionaries({"op": st.just("plain_remove"), "who": idx})),
         (3, st.fixed_dictionaries({"op": st.just("reopen"), "same": st.sampled_from([False, True]),
@@ -101,6 +103,8 @@ def program_strategy(draw, max_ops=30, removal_heavy=False):
     pool = [s for w, s in weighted for _ in range(w)]
     n_ops = draw(st.integers(1, max_ops))
     ops = [{"op": "hole", "group": 0, "name": "h"}]
+    if draw(st.integers(0, 3)) == 0:
+        ops.append({"op": "empty_pg", "hole": 0})  # an empty property group that precedes every table of the hole
     if draw(st.integers(0, 3)) > 0:
         ops.append({"op": "hole", "group": 0, "name": "H2"})
         if draw(st.integers(0, 2)) > 0:
@@ -113,6 +117,9 @@ def program_strategy(draw, max_ops=30, removal_heavy=False):
     for _ in range(n_ops):
         ops.append(draw(draw(st.sampled_from(pool))))
         if ops[-1]["op"] == "reopen" and ops[-1]["lazy"] and draw(st.booleans()):
+            # constructive: a data set's metadata is edited in a session that has not read its values
+            ops.append({"op": "meta", "data": draw(idx), "k": draw(st.integers(0, 9))})
+        elif ops[-1]["op"] == "reopen" and ops[-1]["lazy"] and draw(st.booleans()):
             # constructive: an ordinary object is removed in a session that has not loaded the drillhole data yet
             ops.insert(len(ops) - 1, {"op": "plain"})
             ops[-1] = {**ops[-1], "same": draw(st.sampled_from([True, True, False]))}
@@ -139,6 +146,7 @@ class MHole:
     def __init__(self, uid, name):
         self.uid, self.name = uid, name
         self.tables: list = []
+        self.extra_pgs: list = []  # uids of property groups without properties ("todo*")
 
     def table(self, ttype, key):
         for t in self.tables:
@@ -408,6 +416,36 @@ class ConcatRun:
         self.note_shared(name, hole)
         return True
 
+    def op_empty_pg(self, op):
+        """A property group without properties on a hole (legitimate: groups are filled later)."""
+        pick = self.pick(self.all_holes(), op["hole"])
+        if pick is None:
+            return False
+        grp, hole = pick
+        if hole.extra_pgs:
+            return False
+        self.touched = {grp.uid}
+        ent = self.ent(hole.uid)
+        pg = self.call("PropertyGroup", ent.create_property_group, name="todo", property_group_type="Depth table")
+        hole.extra_pgs.append(str(pg.uid))
+        self.res.label("empty-property-group" + (":before-any-table" if not hole.tables else ""))
+        return True
+
+    def op_meta(self, op):
+        """A non-value attribute of a concatenated data set is assigned (its values must stay what they were)."""
+        pick = self.pick(self.all_data(), op["data"])
+        if pick is None:
+            return False
+        grp, hole, table, name = pick
+        self.touched = {grp.uid}
+        data = self.ent(hole.uid).get_data(name)
+        if not data:
+            self.fail("data-lost", "meta", table.data[name]["kind"], "", f"{name} of hole {hole.name} not found")
+            return True
+        self.call(table.data[name]["kind"], setattr, data[0], "metadata", {"note": int(op["k"])})
+        self.res.label("meta" + (":values-not-loaded" if self.lazy else ""))
+        return True
+
     def note_shared(self, name, hole):
         if any(name in h2.names() for _, h2 in self.all_holes() if h2 is not hole):
             self.stats["shared_name_mutation"] = True
@@ -590,6 +628,7 @@ class ConcatRun:
             return
         mh = MHole(str(new.uid), hole.name)
         pgs = {pg.name: pg for pg in (new.property_groups or [])}
+        mh.extra_pgs = [str(pg.uid) for name, pg in pgs.items() if name == "todo"] if hole.extra_pgs else []
         for table in hole.tables:
             nt = MTable(table.type, table.key, table.locs)
             nt.pg_name = table.pg_name
@@ -784,7 +823,7 @@ class ConcatRun:
         except Exception as exc:
             self.fail("tables-raise", opkind, "DrillholeGroup", where, f"{type(exc).__name__}: {exc}")
             return
-        if set(tables) != set(by_name):
+        if set(tables) - {"todo"} != set(by_name):
             self.fail("table-names-differ", opkind, "DrillholeGroup", where, f"tables {sorted(tables)} expected {sorted(by_name)}")
             return
         for pg_name, members in by_name.items():
@@ -905,7 +944,9 @@ class ConcatRun:
                     return
                 want_ids |= set(props.values())
             want_ids |= live_pgs
-            got_ids = set(ids)
+            # records of property groups without properties are allowed, not demanded
+            optional = {"{" + u + "}" for h in grp.holes for u in h.extra_pgs}
+            got_ids = set(ids) - (optional - want_ids)
             if got_ids != want_ids:
                 extra = sorted(got_ids - want_ids)
                 missing = sorted(want_ids - got_ids)
